@@ -36,3 +36,61 @@ claim('C20', TV + ' (SatOutcome = ReachB over the union of the events)',
       'Event lists with overlapping/disjoint supports, self-loops, unchanged top variable, empty events; by events and by levels with all five splitting options; '
       'relation forests of all rules; result compared with TLC\'s least fixed point and, for identity, with REACHABLE_TRAD_NOFS on the union relation.',
       'Non identity-reduced relation forests are a listed known finding.', '6 C20')
+ST = 'TLC evaluation of the MddNodes predicates (the invariants MddStore is model-checked against) on node snapshots and lifecycle events recorded from the real library'
+claim('C01', 'TLC model checking of MddStore (Canonical, RootsCanonical) + ' + TV + ' with identity-vs-function compared over all held edges',
+      'Design level: TLC proves on the bounded store model that the reduce / unique-table / recycle design keeps distinct live nodes denoting distinct functions '
+      'through every history of creation, deletion and handle reuse.  Implementation level: each target function is built along several paths (collection, '
+      'point-wise joins in shuffled order, algebraic identities, copy through another forest and back, again after everything was released) in every forest kind x '
+      'rule, and a sample of all other drivers\' executions is re-judged: TLC checks equal identity (node handle + typed edge value) <=> equal evaluated table '
+      'over all edges held at every result, plus hash equality of the three unpackings and unique-table look-up of every node in every snapshot.',
+      'Bounded model (2 levels x size 2, 3..4 handles); implementation paths by seed.  EV* only on values where float arithmetic is exact.', '6 C01')
+claim('C02', ST,
+      'Every snapshot (every 10 calls, at the end, after releasing all edges, after clearing caches, after reorderings, after provoked errors) lists every live '
+      'node unpacked three ways; TLC evaluates WellFormedNode (no duplicate, not all-transparent, no forbidden redundant node, quasi never skips, no illegal '
+      'identity singleton, children live and strictly below, EV normal form), view/hash/unique-table agreement, node count = live nodes = unique-table entries, '
+      'and DenoteRoot(snapshot) = evaluated table for every held edge.',
+      'Random histories by seed over random kinds / rules / storage / memory manager / deletion policies; EV* excluded from arithmetic histories.', '6 C02')
+claim('C06', 'TLC model checking of MddStore (RefExact, NoDangling, FreeMeansUnreferenced, ReclaimAll) + ' + ST,
+      'Design level: exhaustive over the bounded store model under both deletion policies.  Implementation: at every snapshot incoming count = parent slots + '
+      'registered root edges (MEDDLY_VERIF hook) + build-list references; no pointer to a reclaimed node; live set = set implied by NewNode/DelNode/Recycle '
+      'events; a handle is allocated only when free and unmentioned by any live cache entry; held edges still denote their functions; nothing remains once all '
+      'edges are released (pessimistic) and caches cleared (optimistic); counts driven through 8/16/32-bit widths.',
+      'Histories without provoked errors (those belong to C16).', '6 C06')
+claim('C07', 'TLC model checking of MddStore (CacheExact, CTSound, HitNeverDead; seeded deviations refuted) + ' + ST,
+      'The same history under 4 table styles x 3 stale policies x 2 sizes validates against the cache-free API specification (so all agree); CTAdd/CTHit/CTDel '
+      'events: a hit must return a live entry whose nodes all are live in the generation they had at the add; cache count of every node = entries in the '
+      'specification\'s bag = entries counted by the table.',
+      'Quick: 6 of the 24 configurations by seed.', '6 C07')
+claim('C11', TV + ' (IterSeq, CardFn) + node/edge counts against the reachable sub-graph of the snapshot',
+      'Iteration sequences must equal IterSeq exactly (order, multiplicity, values) for every mask on tiny shapes and random masks on larger ones; CARDINALITY '
+      'as long/double/mpz; getNodeCount / getEdgeCount(false|true) against the reachable sub-graph TLC derives from the node snapshot.',
+      'All masks only on the smallest shape per kind.', '6 C11')
+claim('C12', TV + ' + ' + ST + ' of one history under every policy combination',
+      'One allocation-heavy history per shape executed under storage x memory manager x deletion combinations (36 in thorough); every trace must satisfy the '
+      'one specification (no policy parameter), the C02 structure predicates and the node-count checks.',
+      'Quick: a covering subset of 8 combinations.', '6 C12')
+claim('C13', TV + ' (PermuteFn) + ' + ST,
+      'All eight heuristics, both swap methods, several target permutations, live edges and warm caches; after each reordering every held edge must equal '
+      'PermuteFn of its table, a second forest must be unchanged, snapshots must satisfy the rule; thorough repeats under AddressSanitizer.',
+      'LEVEL swap on relation forests is a listed known finding.', '6 C13')
+claim('C14', TV + ' (files variable: WriteEdges / ReadEdges) + ' + ST,
+      'Root lists with terminal roots, constants, shared sub-graphs and repeated roots written and read back into the same forest, another forest, and a forest '
+      'created from the file; tables equal in order; receiving forest snapshot canonical with exact counts.',
+      'A forest created from a file of a non-default reduction rule is a listed known finding.', '6 C14')
+claim('C16', 'TLC model checking of MddApiMC (ErrorAtomic) + ' + TV + ' for every misuse in the catalogue',
+      'Every provoked misuse must raise the documented code (or any MEDDLY::error where none is documented) and leave every held edge and forest unchanged '
+      '(re-evaluated and snapshot after each); deep-recursion errors; detached edges; thorough under AddressSanitizer.',
+      'Catalogue is fixed; order random by seed.', '6 C16')
+claim('C17', 'TLC model checking of MddApiMC (AttachedIsLive, FidUnique, FidMonotone, FidNeverReused, OtherDomainsUntouched) + ' + TV,
+      'Design level: every lifecycle order within 2 domains x 2..3 forests x 2..3 edges.  Implementation: seeded random lifecycles with forests and domains '
+      'destroyed under attached edges and populated caches, detached-edge use, repeated init/cleanup; specification state compared after every step; thorough '
+      'under AddressSanitizer.',
+      'Iterators and user-held operation objects across destruction are not driven.', '6 C17')
+claim('C18', 'TLC model checking of MemMgrMC + TLC trace validation of recorded request/recycle sequences against MemMgr',
+      'Every recorded request must be at least as large as asked, have a non-zero handle and be disjoint from every live chunk of the specification state; '
+      'recycles only of live chunks; contents pattern intact at recycle and checkpoints; five styles x two slot widths x four patterns; thorough under ASan.',
+      'Chunk contents are observed by the driver (pattern check), judged by TLC.', '6 C18')
+claim('C19', 'TLC exhaustive check of Codec for every word of widths 6..12 + TLC validation of the real 32-bit codec on boundary and random values',
+      'Width-generic specification checked for every word of small widths; the real codec validated line by line with Q = 2^30: handles, decoded values, '
+      'overflow rejection, zero <=> transparent handle, no non-zero handle decoding to zero.',
+      'The full 2^32 sweep is beyond TLC; boundary values of every bit position plus seeded random words are validated.', '6 C19')
